@@ -228,8 +228,15 @@ def getvgtxts(vglvls):
             dp = 0
         else:
             dp = np.floor(np.log10(vglvl) + 1)
-        tmpl = '%%6.%df' % np.minimum(5, (5 - dp))
-        vgtxt = (tmpl % vglvl)[-6:]
+        ndec = int(np.minimum(5, (5 - dp)))
+        vgtxt = '%6.*f' % (ndec, vglvl)
+        if len(vgtxt) > 6 and vgtxt[:1] == '0':
+            # below one: the leading zero is not written ('.50000')
+            vgtxt = vgtxt[1:]
+        elif len(vgtxt) > 6 and ndec > 0:
+            # rounding carried into a new leading digit (0.999996 prints as
+            # 1.00000): one decimal less, not one leading digit less
+            vgtxt = '%6.*f' % (ndec - 1, vglvl)
         if len(vgtxt) != 6:
             raise ValueError('Unable to format vglvl:' + str(vglvl))
         vgtxts.append(vgtxt)
